@@ -404,6 +404,12 @@ impl<'a, 'tcx> Cx<'a, 'tcx> {
             d.insert("name".into(), J::s(n.as_str()));
         }
         d.insert("local".into(), J::Bool(did.is_local()));
+        if matches!(tcx.def_kind(did), DefKind::Fn | DefKind::AssocFn) {
+            let sig = tcx.fn_sig(did).instantiate_identity().skip_norm_wip();
+            if sig.safety().is_unsafe() {
+                d.insert("unsafe".into(), J::Bool(true));
+            }
+        }
         d.insert(
             "substs".into(),
             J::Arr(substs.iter().map(|a| J::s(&a.to_string())).collect()),
